@@ -154,10 +154,13 @@ def findlabels_pre_310(code, opc):
 NO_LINE_NUMBER = -128
 
 
-def findlinestarts(code, dup_lines=False):
+def findlinestarts(code, dup_lines=False, signed_line_delta=True):
     """Find the offsets in a byte code which are start of lines in the source.
 
     Generate pairs (offset, lineno) as described in Python/compile.c.
+
+    Line-number deltas in ``co_lnotab`` are unsigned bytes before Python 3.6
+    and signed bytes from 3.6 on; pass ``signed_line_delta=False`` for the former.
     """
 
     if hasattr(code, "co_lines"):
@@ -206,7 +209,7 @@ def findlinestarts(code, dup_lines=False):
                         return
                     offset += byte_incr
                     pass
-                if line_delta >= 0x80:
+                if signed_line_delta and line_delta >= 0x80:
                     # line_deltas is an array of 8-bit *signed* integers
                     line_delta -= 0x100
                 lineno += line_delta
@@ -214,6 +217,12 @@ def findlinestarts(code, dup_lines=False):
                 yield offset, lineno
 
     return
+
+
+def findlinestarts_unsigned(code, dup_lines=False):
+    """findlinestarts() for bytecode before Python 3.6, where ``co_lnotab``
+    line-number deltas are unsigned bytes."""
+    return findlinestarts(code, dup_lines=dup_lines, signed_line_delta=False)
 
 
 def instruction_size(op, opc):
